@@ -668,6 +668,9 @@ class Interp:
                 return ClassRef(obj.cls, self.repo.get_class(obj.cls))
             if self.reg and self.reg.is_open(obj.cls):
                 return BoundMethod(obj, name)
+            if self.repo.get_class(obj.cls) is None:
+                # a sidecar model object: a missing attribute is a gap of the model, not of the code
+                self.unsupported(node, f'attribute {name} of modelled object {obj.cls}')
             self.raise_('AttributeError', name)
         if isinstance(obj, ModuleRef):
             return self.module_attr(obj, name, node)
@@ -1005,6 +1008,16 @@ class Interp:
             d[kk] = self.eval(v, env)
         return d
 
+    def e_Yield(self, n, env):
+        v = self.eval(n.value, env) if n.value is not None else None
+        fr = self.frame
+        if not hasattr(fr, 'yields'):
+            fr.yields = []
+        fr.yields.append(v)
+        if self.reg and self.reg.on_yield:
+            self.reg.on_yield(self, fr, v)
+        return None
+
     def e_Lambda(self, n, env):
         return Closure(n, env, self.frame.module, self.frame)
 
@@ -1254,11 +1267,15 @@ class Interp:
         try:
             self.bind_args(fnode.args, args, kwargs, env, fnode.name)
             self.e.note(f'inlined: {module.relpath}:{q}') if len(self.frames) > 1 else None
+            is_gen = any(isinstance(x, (ast.Yield, ast.YieldFrom)) for x in ast.walk(fnode)
+                         if not isinstance(x, (ast.Lambda,)))
+            if is_gen:
+                fr.yields = []
             try:
                 self.exec_block(fnode.body, env)
             except _Return as r:
-                return r.value
-            return None
+                return r.value if not is_gen else fr.yields
+            return None if not is_gen else fr.yields
         finally:
             self.frames.pop()
 
@@ -1458,6 +1475,10 @@ class Interp:
     def py_str(self, v):
         if isinstance(v, (str,)):
             return v
+        if self.reg and not is_concrete(v):
+            h = self.reg.str_hook(v)
+            if h:
+                return h(self, v)
         if isinstance(v, bool) or v is None:
             return str(v)
         if isinstance(v, int):
